@@ -18,12 +18,22 @@ Theorem C38_base64 : forall s, bytes_ok s -> b64_decode (b64_encode s) = Some s.
 Proof. exact b64_roundtrip. Qed.
 Print Assumptions C38_base64.
 
-(* Whole file id. valid_file_id f: f is a value the format can carry -- Type below
-   lastType, DC a 32-bit value as the decoder reads it (0 <= DC < 2^32), id / access hash
-   int64, file reference and URL byte strings shorter than 2^24 (any content), and
-   either a web location (URL set; id, hash, photo source zero) or an ordinary file whose
-   photo size source is present exactly for Thumbnail/Photo/ProfilePhoto and carries the
-   fields of its kind in range with all other fields zero. *)
+(* Whole file id. The Go struct holds more than the format stores, so "an equal file id" can
+   only be claimed for the values the format carries; valid_file_id f says exactly that:
+   - Type below lastType; DC a signed 32-bit value (dc_id is a 4-byte field; since fix
+     8a38e48f8 it is read back signed, before that a negative DC came back as DC + 2^32);
+     id / access hash int64; file reference and URL byte strings shorter than 2^24 of any
+     content (nil and empty reference are identified);
+   - either a web location (URL set; id, hash and photo size source are not written at all,
+     so they must be zero) or an ordinary file whose photo size source is present exactly
+     for Thumbnail/Photo/ProfilePhoto and carries the fields of its kind in range (LocalID
+     and the type are 32-bit fields, FileType an unsigned 32-bit field) with all other
+     fields zero;
+   - PhotoSizeSource.PhotoSize is never written by the encoder and is therefore not a field
+     of the model record: the equality below is equality on the projection of fileid.FileID
+     without PhotoSize.
+   Ids outside this set come back as their canonical projection (harness oracle
+   canonical(), checked on the implementation; C38_dc_outside_32bit shows the boundary). *)
 Theorem C38_roundtrip : forall f, valid_file_id f -> decode_file_id (encode_file_id f) = Ok f.
 Proof. exact file_id_roundtrip. Qed.
 Print Assumptions C38_roundtrip.
@@ -43,6 +53,19 @@ Print Assumptions C38_total.
 Theorem C38_old_encoder_refuted : rle_dec (rle_enc_old (repeat 0 256) 0) None <> repeat 0 256.
 Proof. vm_compute. discriminate. Qed.
 Print Assumptions C38_old_encoder_refuted.
+
+(* boundary of the canonical domain: a DC that does not fit the 4-byte field is truncated *)
+Example C38_dc_outside_32bit :
+  decode_file_id (encode_file_id (mkFileId 5 (2 ^ 31) 1 2 [] [] pss0)) = Ok (mkFileId 5 (- 2 ^ 31) 1 2 [] [] pss0).
+Proof. vm_compute. reflexivity. Qed.
+(* negative DCs are canonical (repaired defect, sig negative-dc-unsigned-readback) *)
+Example C38_negative_dc :
+  valid_file_id (mkFileId 5 (-1) 1 2 [] [] pss0) /\
+  decode_file_id (encode_file_id (mkFileId 5 (-1) 1 2 [] [] pss0)) = Ok (mkFileId 5 (-1) 1 2 [] [] pss0).
+Proof.
+  split; [|vm_compute; reflexivity].
+  repeat split; try (vm_compute; congruence); try (vm_compute; reflexivity); constructor.
+Qed.
 
 (* non-vacuity: valid file ids of each shape exist, and the round trip computes on them *)
 Definition C38_ex_doc : file_id := mkFileId 5 2 (-77) 123456789012 (repeat 0 300 ++ [1; 2; 0]) [] pss0.
